@@ -188,6 +188,18 @@ func TestCheck(t *testing.T) {
 				s.Initial = 1 + r.IntN(s.Min-1) // built below its own minimum (the constructors accept it): the estimate climbs from there
 				rt.Count("cases_built_below_the_minimum", 1)
 			}
+			if ik == "gradient" && r.IntN(6) == 0 {
+				// bounds the constructor accepts although they contradict each other: a maximum below the queue allowance
+				// or below the minimum.  Whatever the estimate then is, listeners are told exactly that value.
+				s.Max = 1 + r.IntN(3)
+				if r.IntN(2) == 0 {
+					s.QueueKind, s.QueueArg = []string{"sqrt", "fixed"}[r.IntN(2)], 4+r.IntN(8)
+				} else {
+					s.Min = s.Max + 1 + r.IntN(6)
+				}
+				s.Initial = 1 + r.IntN(12)
+				rt.Count("gradient_cases_with_a_maximum_below_queue_allowance_or_minimum", 1)
+			}
 			inner, spec = s.New(nil, "c16"), s
 		}
 		top := inner
